@@ -378,6 +378,7 @@ func (planH) Execute(c *Case, res *Result) {
 						Count: op.Count, NodesLimit: op.Limit, DeployStrategy: op.Strategy, NodeFilter: &coretypes.NodeFilter{Podname: planPod, Includes: op.Includes}}
 					sim.SetFaultsEnabled(true)
 					before := sim.Stats.ErrFired
+					answersBefore := pls[0].answers
 					msg, err := cal.CalculateCapacity(ctx, opts)
 					sim.SetFaultsEnabled(false)
 					sim.Settle()
@@ -447,6 +448,17 @@ func (planH) Execute(c *Case, res *Result) {
 						if err == nil {
 							res.Harness = fmt.Sprintf("query returned without exactly one strategy call (%d)", len(calls))
 							return
+						}
+						if len(calls) == 0 && pls[0].answers != answersBefore && sim.Stats.ErrFired == before {
+							// the plugins were asked, nothing failed, and the request was refused without
+							// any strategy being consulted: that refusal has to be justified by the
+							// strategy's own rule all the same (C02)
+							var infos []strategy.Info
+							for _, n := range sortedKeys(ref) {
+								infos = append(infos, strategy.Info{Nodename: n, Capacity: ref[n].cap, Usage: ref[n].usage, Rate: ref[n].rate, Count: counts[n]})
+							}
+							res.Probes["refused_before_planning"]++
+							checkPlan(planCall{Strategy: op.Strategy, Infos: infos, Need: op.Count, Total: refTotal, Limit: op.Limit, Err: err}, msg, err, viol, res)
 						}
 						continue // refused before planning (e.g. no node passed the filter)
 					}
